@@ -22,12 +22,14 @@ import (
 // snapshotRun executes a raw history on a fresh instance; after every Commit(h) the query list is recorded at the
 // explicit height h, and between every two later ABCI calls (and around interleaved CheckTx/Simulate calls) every
 // height <= committed and "latest" are queried again and must give the recorded answers.
-func (e *twinEnv) snapshotRun(h History, withCheckTx bool) (queries int, problem string) {
+// mode 0: plain; 1: CheckTx+Simulate before every tx; 2: the node is restarted after every Commit (committed snapshots survive).
+func (e *twinEnv) snapshotRun(h History, mode int) (queries int, problem string) {
+	withCheckTx := mode == 1
 	var accs []*world.Account
 	for _, n := range h.Accounts {
 		accs = append(accs, world.NewAccount(n))
 	}
-	w := world.New(world.Options{Accounts: accs, DB: dbm.NewMemDB()})
+	w := world.New(world.Options{Accounts: accs, DB: dbm.NewMemDB(), Mutate: genesisVariants[h.Genesis]})
 	recorded := map[int64][]string{}
 	last := int64(1)
 	recorded[1] = e.runQueries(w, 1)
@@ -57,6 +59,7 @@ func (e *twinEnv) snapshotRun(h History, withCheckTx bool) (queries int, problem
 		if !verify(fmt.Sprintf("block %d after BeginBlock", bi)) {
 			return
 		}
+		h.maybeScheduleUpgrade(w, bi)
 		for ti, t64 := range blk {
 			bz, _ := base64.StdEncoding.DecodeString(t64)
 			if withCheckTx {
@@ -82,6 +85,13 @@ func (e *twinEnv) snapshotRun(h History, withCheckTx bool) (queries int, problem
 		if !verify(fmt.Sprintf("block %d after Commit", bi)) {
 			return
 		}
+		if mode == 2 {
+			w.Restart()
+			if !verify(fmt.Sprintf("block %d after Commit and a restart", bi)) {
+				return
+			}
+			continue // Restart has begun the next block
+		}
 		w.BeginBlock()
 	}
 	return
@@ -96,6 +106,8 @@ func c20Shard(t Tier, shard, n int) (run *report.Run) {
 	}
 	dl := deadline(t, 90*time.Second, 15*time.Minute)
 	cases := buildShard(e, maxLen, shard, n)
+	cases = append(cases, variantCases(e, shard, n)...) // unusual genesis contents (zero timestamps, shared ids, ...)
+	cases = append(cases, upgradeCases(e, shard, n)...)
 	queries, execs := 0, 0
 	capHit := false
 	for _, c := range cases {
@@ -103,13 +115,13 @@ func c20Shard(t Tier, shard, n int) (run *report.Run) {
 			capHit = true
 			break
 		}
-		for _, chk := range []bool{false, true} {
+		for _, chk := range []int{0, 1, 2} {
 			q, problem := e.snapshotRun(c.hist, chk)
 			queries += q
 			execs++
 			if problem != "" {
 				run.Add(report.Viol{Kind: "snapshot-read", Sig: "snapshot-read:" + firstWords(problem[strings.Index(problem, ": ")+2:], 5),
-					Msg: fmt.Sprintf("history %s: %s", c.name, problem), Replay: map[string]any{"check": "C20b", "history": c.name, "checktx": chk}})
+					Msg: fmt.Sprintf("history %s: %s", c.name, problem), Replay: map[string]any{"check": "C20b", "history": c.name, "mode": chk}})
 				break
 			}
 		}
